@@ -149,3 +149,15 @@ add("range-hugeint-to-float", fn("int a) -> float", _SQ_I + ["float y = x;", "re
 add("range-hugeint-div-float", fn("int a) -> float", _SQ_I + ["return x / 2.0;"]))
 add("range-inf-to-int", fn("int a) -> int", _SQ_F + ["return int(x);"]))
 add("range-nan-to-int", fn("int a) -> int", _SQ_F + ["return int(x - x);"]))
+
+# ---- aggregates nested in aggregates: every element type an array can have, as local, global and structure field
+_P = "struct P\n{\n  float a;\n  int k;\n}\n"
+_T = _P + "struct T\n{\n  P[2] items;\n  P one;\n  float3[2] vs;\n  int[2][3] grid;\n}\n"
+add("nest-local-struct-with-array-of-struct", fn("int i) -> float", ["T t;", "t.items[1].a = 2.5;", "t.items[i % 2].k += 1;", "return t.items[1].a + t.items[0].k + t.one.a;"], _T))
+add("nest-local-array-of-struct", fn("int i) -> float", ["P[3] ps;", "ps[i % 3].a = 1.5;", "ps[2].k = 4;", "return ps[0].a + ps[2].k;"], _P))
+add("nest-local-array2-of-struct", fn("int i) -> float", ["P[2][2] ps;", "ps[1][i % 2].a = 1.5;", "return ps[1][0].a + ps[0][1].k;"], _P))
+add("nest-global-array-of-struct", _P + "P[3] gp;\n" + fn("int i) -> float", ["gp[i % 3].a += 1.5;", "return gp[0].a + gp[1].a + gp[2].k;"]))
+add("nest-global-struct-with-arrays", _T + "T gt;\n" + fn("int i) -> float", ["gt.vs[i % 2].y = 2.0;", "gt.grid[1][i % 3] = 7;", "gt.items[0].a = gt.vs[1].y;", "return gt.items[0].a + gt.grid[1][2];"]))
+add("nest-local-array-of-vectors", fn("int i) -> float", ["float3[2] vs;", "int2[3] ws;", "float3x3[2] ms;", "vs[i % 2].z = 1.5;", "ws[2].x = 3;", "ms[1][2][i % 3] = 0.5;", "return vs[0].z + vs[1].z + ws[2].x + ms[1][2][0];"]))
+add("nest-struct-copy-with-nested", fn("int i) -> float", ["T t;", "T u;", "t.items[1].a = 4.5;", "u = t;", "u.items[1].a = 1.0;", "P q = t.items[1];", "q.a = 9.0;", "return t.items[1].a + u.items[1].a + q.a;"], _T))
+add("nest-param-struct-with-array-of-struct", _T + "function h(T t, int i) -> float\n{\n  t.items[i % 2].a = 3.0;\n  return t.items[0].a + t.items[1].a;\n}\n" + fn("int i) -> float", ["T t;", "return h(t, i) + t.items[0].a;"]))
